@@ -84,9 +84,44 @@ theorem gen_mtcp :
        "  if err := cboring.Unmarshal(bndl, connReader); err != nil", "    return", "  else",
        "    serv.reportChan <- cla.NewConvergenceReceivedBundle(serv, serv.endpointID, bndl)"] := ⟨rfl, rfl⟩
 
+/-- `Send`: five I/O steps, the first failing one is returned; the deferred function reports `PeerDisappeared`
+exactly when the returned error is non-nil. -/
+theorem gen_mtcp_send :
+    Dtn7.Gen.C12.clientSend =
+      ["defer func", "  if r := recover(); r != nil", "    err = fmt.Errorf(\"MTCPClient.Send: %v\", r)",
+       "defer func", "  if err != nil",
+       "    client.reportChan <- cla.NewConvergencePeerDisappeared(client, client.GetPeerEndpointID())",
+       "client.mutex.Lock()", "defer client.mutex.Unlock()", "connWriter := bufio.NewWriter(client.conn)",
+       "buff := new(bytes.Buffer)", "if cborErr := cboring.Marshal(&bndl, buff); cborErr != nil", "  err = cborErr",
+       "  return", "if bsErr := cboring.WriteByteStringLen(uint64(buff.Len()), connWriter); bsErr != nil",
+       "  err = bsErr", "  return", "if _, plErr := buff.WriteTo(connWriter); plErr != nil", "  err = plErr", "  return",
+       "if flushErr := connWriter.Flush(); flushErr != nil", "  err = flushErr", "  return",
+       "if probeErr := cboring.WriteByteStringLen(0, client.conn); probeErr != nil", "  err = probeErr", "  return",
+       "return"] := rfl
+
 /-! ## MTCP -/
 section
 open Dtn7.Mtcp Dtn7.Wire
+
+/-- **Send on a broken connection**: whichever of the five steps fails — in particular any write the operating
+system refuses — `Send` returns an error AND reports the peer as gone; it returns nil only if every step,
+including the final probe write, succeeded. (WHETHER a write on a connection the peer has closed fails is
+decided by TCP, not by this code: D32, observed by the harness, not provable here.) -/
+theorem mtcp_send_error_reports_gone (ios : List Bool) :
+    (send ios).peerDisappeared = (send ios).err ∧
+    ((send ios).err = false ↔ ∃ rest, ios = true :: true :: true :: true :: true :: rest) := by
+  refine ⟨rfl, ?_⟩
+  rcases ios with _ | ⟨a, _ | ⟨b, _ | ⟨c, _ | ⟨d, _ | ⟨e, rest⟩⟩⟩⟩⟩
+  · simp [send, sendSteps]
+  · cases a <;> simp [send, sendSteps]
+  · cases a <;> cases b <;> simp [send, sendSteps]
+  · cases a <;> cases b <;> cases c <;> simp [send, sendSteps]
+  · cases a <;> cases b <;> cases c <;> cases d <;> simp [send, sendSteps]
+  · cases a <;> cases b <;> cases c <;> cases d <;> cases e <;> simp [send, sendSteps]
+
+example : send [true, true, true, true, true] = ⟨false, false, 5⟩ := by decide
+example : send [true, true, true, true, false] = ⟨true, true, 4⟩ := by decide
+example : send [true, true, false] = ⟨true, true, 2⟩ := by decide
 
 /-- The keep-alive / probe byte is the head of the empty byte string. -/
 theorem mtcp_keepalive_is_empty_bytestring : keepalive = Dtn7.Cbor.encHead Dtn7.Cbor.majBytes 0 := by decide
